@@ -372,7 +372,20 @@ impl<'a> Gen<'a> {
             let to = regs[(i + 1) % k];
             out.push(Act::Clone { src: Src::R(to), dst: Dst::Slot(Own::R(from), false, 0) });
         }
-        match self.rng.idx(6) {
+        match self.rng.idx(7) {
+            6 => {
+                // an object owned by a ring member only through an UNTRACED slot, holding a Weak to another member; its
+                // finalizer (and destructor) upgrade that Weak. When the ring is collected it is released by the drop
+                // glue of its owner, i.e. by a plain Cc::drop nested in the collector's drop phase.
+                let u = self.reg();
+                if !regs.contains(&u) {
+                    let peer = regs[1 % k];
+                    let dst = if self.rng.chance(1, 2) { Dst::G(self.glob()) } else { Dst::Discard };
+                    out.push(Act::New { dst: Dst::R(u), spec: Box::new(Spec { fin: vec![Act::Upgrade { src: WLoc::Of(Own::Me, 1), dst }], drp: vec![DAct::UpgradeW(1)] }) });
+                    out.push(Act::Downgrade { src: Src::R(peer), dst: WLoc::Of(Own::R(u), 1) });
+                    out.push(Act::Take { src: Src::R(u), dst: Dst::Slot(Own::R(regs[0]), true, 0) });
+                }
+            }
             0 => {
                 // acyclic tail hanging off the ring
                 let t = self.reg();
